@@ -1,5 +1,6 @@
 import DS.Model.Lattice
 import DS.Lemmas.RealElem
+import Mathlib.Tactic.Positivity
 
 set_option linter.unusedSectionVars false
 
@@ -267,6 +268,702 @@ theorem recip_pairing {p : CellCS ℝ} {Q : Mat3 ℝ} (h : Valid p Q) (hkl u : V
 
 theorem rnorm_eq (L : Lattice ℝ) (hkl : Vec3 ℝ) :
     L.rnorm hkl = Real.sqrt (Vec3.dot (Mat3.vecMul hkl L.recbase.transpose) (Mat3.vecMul hkl L.recbase.transpose)) := rfl
+
+noncomputable def recipMetric (p : CellCS ℝ) : Mat3 ℝ :=
+  metricsOf (p.sa / (p.a * p.V)) (p.sb / (p.b * p.V)) (p.sg / (p.c * p.V))
+    ((p.cb * p.cg - p.ca) / (p.sb * p.sg)) ((p.ca * p.cg - p.cb) / (p.sa * p.sg)) ((p.ca * p.cb - p.cg) / (p.sa * p.sb))
+
+theorem metrics_mul_recip {p : CellCS ℝ} (h : ValidCS p) :
+    (metricsOf p.a p.b p.c p.ca p.cb p.cg).mul (recipMetric p) = Mat3.one := by
+  have hsa := h.sa_pos.ne'
+  have hsb := h.sb_pos.ne'
+  have hsg := h.sg_pos.ne'
+  have ha := h.a_pos.ne'
+  have hb := h.b_pos.ne'
+  have hc := h.c_pos.ne'
+  have hV := h.V_pos.ne'
+  have e1 := h.ha
+  have e2 := h.hb
+  have e3 := h.hg
+  have e4 := h.hV
+  apply Mat3.ext' <;> simp only [recipMetric, Mat3.mul, metricsOf, Mat3.one] <;> field_simp
+  · linear_combination e1 - e4
+  · linear_combination (p.a * p.cg) * e2
+  · linear_combination (p.a * p.cb) * e3
+  · linear_combination (p.b * p.cg) * e1
+  · linear_combination e2 - e4
+  · linear_combination (p.b * p.ca) * e3
+  · linear_combination (p.c * p.cb) * e1
+  · linear_combination (p.c * p.ca) * e2
+  · linear_combination e3 - e4
+
+/-- uniqueness of the inverse: `X·G = 1` and `G·M = 1` give `X = M` -/
+theorem left_inv_eq_right_inv {X G M : Mat3 ℝ} (h1 : X.mul G = Mat3.one) (h2 : G.mul M = Mat3.one) : X = M := by
+  calc X = X.mul Mat3.one := (Mat3.mul_one X).symm
+    _ = X.mul (G.mul M) := by rw [h2]
+    _ = (X.mul G).mul M := (Mat3.mul_assoc X G M).symm
+    _ = M := by rw [h1, Mat3.one_mul]
+
+theorem transpose_one : (Mat3.one : Mat3 ℝ).transpose = Mat3.one := rfl
+
+/-- the Gram matrix of the reciprocal base `recbaseᵀ` is the metric tensor of the reciprocal cell
+parameters `ar br cr`, `cos αr, cos βr, cos γr` -/
+theorem recip_gram {p : CellCS ℝ} {Q : Mat3 ℝ} (h : Valid p Q) :
+    (ofCS p Q).recbase.transpose.mul (ofCS p Q).recbase.transpose.transpose = recipMetric p := by
+  rw [Mat3.transpose_transpose]
+  apply left_inv_eq_right_inv (G := (ofCS p Q).metrics)
+  · rw [metrics_eq_gram h, Mat3.mul_assoc, ← Mat3.mul_assoc (ofCS p Q).recbase, recbase_mul_base h, Mat3.one_mul,
+      ← Mat3.transpose_mul, base_mul_recbase h, transpose_one]
+  · rw [ofCS_metrics]; exact metrics_mul_recip h.cs
+
+/-! #### exact table values of `cosd`, periodicity, `sind` -/
+
+/-- the table `_EXACT_COSD` of `lattice.py` -/
+noncomputable def cosdTable : List (ℝ × ℝ) :=
+  [(0, 1), (60, 1 / 2), (90, 0), (120, -(1 / 2)), (180, -1), (240, -(1 / 2)), (270, 0), (300, 1 / 2)]
+
+theorem cosd_table_exact : ∀ e ∈ cosdTable, (Elem.cosd e.1 : ℝ) = e.2 := by
+  intro e he
+  simp only [cosdTable, List.mem_cons, List.not_mem_nil, or_false] at he
+  rcases he with rfl | rfl | rfl | rfl | rfl | rfl | rfl | rfl <;> simp only [elem_cosd]
+  · simp
+  · rw [show (60 : ℝ) * π / 180 = π / 3 by ring]; exact Real.cos_pi_div_three
+  · rw [show (90 : ℝ) * π / 180 = π / 2 by ring]; exact Real.cos_pi_div_two
+  · rw [show (120 : ℝ) * π / 180 = π - π / 3 by ring, Real.cos_pi_sub, Real.cos_pi_div_three]
+  · rw [show (180 : ℝ) * π / 180 = π by ring]; exact Real.cos_pi
+  · rw [show (240 : ℝ) * π / 180 = π / 3 + π by ring, Real.cos_add_pi, Real.cos_pi_div_three]
+  · rw [show (270 : ℝ) * π / 180 = π / 2 + π by ring, Real.cos_add_pi, Real.cos_pi_div_two]; simp
+  · rw [show (300 : ℝ) * π / 180 = 2 * π - π / 3 by ring, Real.cos_two_pi_sub, Real.cos_pi_div_three]
+
+/-- `cosd (x + 360·k) = cosd x`: reducing the argument modulo 360 before the table lookup is sound -/
+theorem cosd_periodic (x : ℝ) (k : ℤ) : (Elem.cosd (x + 360 * k) : ℝ) = Elem.cosd x := by
+  simp only [elem_cosd]
+  rw [show (x + 360 * (k : ℝ)) * π / 180 = x * π / 180 + k * (2 * π) by ring]
+  exact Real.cos_add_int_mul_two_pi _ k
+
+/-- `sind x = cosd (90 − x)` (the definition used by `lattice.sind`) -/
+theorem sind_eq_cosd (x : ℝ) : (Elem.sind x : ℝ) = Elem.cosd (90 - x) := by
+  simp only [elem_sind, elem_cosd]
+  rw [show (90 - x) * π / 180 = π / 2 - x * π / 180 by ring, Real.cos_pi_div_two_sub]
+
+/-! #### validity of cells given by lengths and angles in degrees -/
+
+/-- a valid cell: positive lengths, angles strictly between 0° and 180°, positive volume -/
+structure ValidPar (a b c al be ga : ℝ) : Prop where
+  a_pos : 0 < a
+  b_pos : 0 < b
+  c_pos : 0 < c
+  al_pos : 0 < al
+  al_lt : al < 180
+  be_pos : 0 < be
+  be_lt : be < 180
+  ga_pos : 0 < ga
+  ga_lt : ga < 180
+  vol_pos : 0 < 1 + 2 * Real.cos (al * π / 180) * Real.cos (be * π / 180) * Real.cos (ga * π / 180)
+    - Real.cos (al * π / 180) * Real.cos (al * π / 180) - Real.cos (be * π / 180) * Real.cos (be * π / 180)
+    - Real.cos (ga * π / 180) * Real.cos (ga * π / 180)
+
+theorem deg_range {x : ℝ} (h0 : 0 < x) (h1 : x < 180) : 0 < x * π / 180 ∧ x * π / 180 < π := by
+  have := Real.pi_pos
+  constructor
+  · positivity
+  · rw [div_lt_iff₀ (by norm_num : (0:ℝ) < 180)]; nlinarith
+
+theorem validCS_csOfPar {a b c al be ga : ℝ} (h : ValidPar a b c al be ga) : ValidCS (csOfPar a b c al be ga) := by
+  obtain ⟨a0, a1⟩ := deg_range h.al_pos h.al_lt
+  obtain ⟨b0, b1⟩ := deg_range h.be_pos h.be_lt
+  obtain ⟨g0, g1⟩ := deg_range h.ga_pos h.ga_lt
+  refine ⟨h.a_pos, h.b_pos, h.c_pos, ?_, ?_, ?_, ?_, ?_, ?_, ?_, ?_⟩
+  · simp only [csOfPar, elem_cosd, elem_sind]; linear_combination Real.sin_sq_add_cos_sq (al * π / 180)
+  · simp only [csOfPar, elem_cosd, elem_sind]; linear_combination Real.sin_sq_add_cos_sq (be * π / 180)
+  · simp only [csOfPar, elem_cosd, elem_sind]; linear_combination Real.sin_sq_add_cos_sq (ga * π / 180)
+  · exact Real.sin_pos_of_pos_of_lt_pi a0 a1
+  · exact Real.sin_pos_of_pos_of_lt_pi b0 b1
+  · exact Real.sin_pos_of_pos_of_lt_pi g0 g1
+  · simp only [csOfPar, unitvol, elem_cosd, elem_sqrt]; exact Real.mul_self_sqrt h.vol_pos.le
+  · simp only [csOfPar, unitvol, elem_cosd, elem_sqrt]; exact Real.sqrt_pos.mpr h.vol_pos
+
+theorem valid_ofPar {a b c al be ga : ℝ} {Q : Mat3 ℝ} (h : ValidPar a b c al be ga) (hQ : IsRot Q) :
+    Valid (csOfPar a b c al be ga) Q := ⟨validCS_csOfPar h, hQ⟩
+
+/-- `volume = det base` -/
+theorem volume_eq_det {a b c al be ga : ℝ} {Q : Mat3 ℝ} (h : ValidPar a b c al be ga) (hQ : IsRot Q) :
+    (ofPar a b c al be ga Q).volume = (ofPar a b c al be ga Q).base.det := by
+  rw [ofPar, base_det (valid_ofPar h hQ)]; rfl
+
+
+/-! #### `setLatBase`: parameters recovered from base vectors -/
+
+/-- the record `setLatBase` computes from lengths and cosines (lines 398–411) -/
+noncomputable def csOfCos (a b c ca cb cg : ℝ) : CellCS ℝ :=
+  { a := a, b := b, c := c
+    alpha := Elem.acosd ca, beta := Elem.acosd cb, gamma := Elem.acosd cg
+    ca := ca, cb := cb, cg := cg
+    sa := Elem.sqrt (1 - ca * ca), sb := Elem.sqrt (1 - cb * cb), sg := Elem.sqrt (1 - cg * cg)
+    V := unitvol (Elem.cosd (Elem.acosd ca)) (Elem.cosd (Elem.acosd cb)) (Elem.cosd (Elem.acosd cg)) }
+
+theorem csOfBase_eq_csOfCos (B : Mat3 ℝ) :
+    csOfBase B = csOfCos (Real.sqrt (Vec3.dot B.row1 B.row1)) (Real.sqrt (Vec3.dot B.row2 B.row2))
+      (Real.sqrt (Vec3.dot B.row3 B.row3))
+      (Vec3.dot B.row2 B.row3 / (Real.sqrt (Vec3.dot B.row2 B.row2) * Real.sqrt (Vec3.dot B.row3 B.row3)))
+      (Vec3.dot B.row1 B.row3 / (Real.sqrt (Vec3.dot B.row1 B.row1) * Real.sqrt (Vec3.dot B.row3 B.row3)))
+      (Vec3.dot B.row1 B.row2 / (Real.sqrt (Vec3.dot B.row1 B.row1) * Real.sqrt (Vec3.dot B.row2 B.row2))) := rfl
+
+/-- if the Gram matrix of `B` is the metric tensor of `a b c ca cb cg` (positive lengths), `setLatBase`
+recovers exactly these lengths and cosines -/
+theorem csOfBase_of_gram {B : Mat3 ℝ} {a b c ca cb cg : ℝ} (ha : 0 < a) (hb : 0 < b) (hc : 0 < c)
+    (hG : B.mul B.transpose = metricsOf a b c ca cb cg) : csOfBase B = csOfCos a b c ca cb cg := by
+  obtain ⟨g11, g22, g33, g23, g13, g12⟩ := gram_entries B
+  rw [hG] at g11 g22 g33 g23 g13 g12
+  simp only [metricsOf] at g11 g22 g33 g23 g13 g12
+  rw [csOfBase_eq_csOfCos, ← g11, ← g22, ← g33, ← g23, ← g13, ← g12,
+    Real.sqrt_mul_self ha.le, Real.sqrt_mul_self hb.le, Real.sqrt_mul_self hc.le]
+  have e1 : b * c * ca / (b * c) = ca := by field_simp
+  have e2 : a * c * cb / (a * c) = cb := by field_simp
+  have e3 : a * b * cg / (a * b) = cg := by field_simp
+  rw [e1, e2, e3]
+
+theorem cosd_acosd {x : ℝ} (h0 : -1 ≤ x) (h1 : x ≤ 1) : (Elem.cosd (Elem.acosd x : ℝ) : ℝ) = x := by
+  simp only [elem_cosd, elem_acosd]
+  rw [show Real.arccos x * 180 / π * π / 180 = Real.arccos x by field_simp]
+  exact Real.cos_arccos h0 h1
+
+theorem sind_acosd (x : ℝ) : (Elem.sind (Elem.acosd x : ℝ) : ℝ) = Real.sqrt (1 - x * x) := by
+  simp only [elem_sind, elem_acosd]
+  rw [show Real.arccos x * 180 / π * π / 180 = Real.arccos x by field_simp, Real.sin_arccos, pow_two]
+
+theorem acosd_cosd {x : ℝ} (h0 : 0 < x) (h1 : x < 180) : (Elem.acosd (Elem.cosd x : ℝ) : ℝ) = x := by
+  obtain ⟨r0, r1⟩ := deg_range h0 h1
+  simp only [elem_cosd, elem_acosd]
+  rw [Real.arccos_cos r0.le r1.le]; field_simp
+
+/-- `assemble` only looks at `orient stdbase` -/
+theorem assemble_congr (p : CellCS ℝ) (o1 o2 : Mat3 ℝ → Mat3 ℝ × Mat3 ℝ)
+    (h : o1 (assemble p o1).stdbase = o2 (assemble p o1).stdbase) : assemble p o1 = assemble p o2 := by
+  simp only [assemble] at h ⊢
+  rw [h]
+
+theorem S0_det_ne {p : CellCS ℝ} (h : ValidCS p) : (S0 p).det ≠ 0 := by
+  rw [S0_det p h]
+  exact (mul_pos (mul_pos (mul_pos h.a_pos h.b_pos) h.c_pos) h.V_pos).ne'
+
+/-- for valid data `p = csOfBase B`, `setLatBase B` is `setLatPar` with the recovered data and rotation `stdbase⁻¹·B` -/
+theorem ofBase_eq_ofCS {B : Mat3 ℝ} {p : CellCS ℝ} (hp : csOfBase B = p) (h : ValidCS p) :
+    ofBase B = ofCS p ((S0 p).inv.mul B) := by
+  rw [ofBase, hp, ofCS]
+  apply assemble_congr
+  rw [stdbase_eq h]
+  show ((S0 p).inv.mul B, B) = ((S0 p).inv.mul B, (S0 p).mul ((S0 p).inv.mul B))
+  rw [← Mat3.mul_assoc, Mat3.mul_inv (S0_det_ne h), Mat3.one_mul]
+
+/-- the first of the two views: building the lattice from the base vectors of `ofCS p Q` gives `ofCS p Q` back -/
+theorem ofBase_base {p : CellCS ℝ} {Q : Mat3 ℝ} (h : Valid p Q) (hp : csOfBase (ofCS p Q).base = p) :
+    ofBase (ofCS p Q).base = ofCS p Q := by
+  rw [ofBase_eq_ofCS hp h.cs, ofCS_base h.cs, ← Mat3.mul_assoc, Mat3.inv_mul (S0_det_ne h.cs), Mat3.one_mul]
+
+
+/-! #### arbitrary base with positive determinant -/
+
+def cross (x y : Vec3 ℝ) : Vec3 ℝ := ⟨x.y * y.z - x.z * y.y, x.z * y.x - x.x * y.z, x.x * y.y - x.y * y.x⟩
+
+theorem lagrange (x y : Vec3 ℝ) :
+    Vec3.dot (cross x y) (cross x y) = Vec3.dot x x * Vec3.dot y y - (Vec3.dot x y) ^ 2 := by
+  simp only [cross, Vec3.dot]; ring
+
+theorem det_triple1 (B : Mat3 ℝ) : B.det = Vec3.dot B.row1 (cross B.row2 B.row3) := by
+  simp only [Mat3.det, Vec3.dot, cross, Mat3.row1, Mat3.row2, Mat3.row3]; ring
+theorem det_triple2 (B : Mat3 ℝ) : B.det = Vec3.dot B.row2 (cross B.row3 B.row1) := by
+  simp only [Mat3.det, Vec3.dot, cross, Mat3.row1, Mat3.row2, Mat3.row3]; ring
+theorem det_triple3 (B : Mat3 ℝ) : B.det = Vec3.dot B.row3 (cross B.row1 B.row2) := by
+  simp only [Mat3.det, Vec3.dot, cross, Mat3.row1, Mat3.row2, Mat3.row3]; ring
+
+theorem dot_comm (x y : Vec3 ℝ) : Vec3.dot x y = Vec3.dot y x := by simp only [Vec3.dot]; ring
+
+/-- from `det² ≤ n·L` with `n, L ≥ 0` and `det ≠ 0`: both factors are positive -/
+theorem both_pos {d n L : ℝ} (hd : d ≠ 0) (hn : 0 ≤ n) (hL : 0 ≤ L) (h : d ^ 2 ≤ n * L) : 0 < n ∧ 0 < L := by
+  have hd2 : 0 < d ^ 2 := by positivity
+  have hnL : 0 < n * L := lt_of_lt_of_le hd2 h
+  constructor
+  · rcases hn.lt_or_eq with h1 | h1
+    · exact h1
+    · rw [← h1, zero_mul] at hnL; exact absurd hnL (lt_irrefl _)
+  · rcases hL.lt_or_eq with h1 | h1
+    · exact h1
+    · rw [← h1, mul_zero] at hnL; exact absurd hnL (lt_irrefl _)
+
+/-- rows of a non-singular matrix are non-zero and pairwise non-parallel (strict Cauchy–Schwarz) -/
+theorem rows_of_det_ne {B : Mat3 ℝ} (hB : B.det ≠ 0) :
+    0 < Vec3.dot B.row1 B.row1 ∧ 0 < Vec3.dot B.row2 B.row2 ∧ 0 < Vec3.dot B.row3 B.row3 ∧
+    0 < Vec3.dot B.row2 B.row2 * Vec3.dot B.row3 B.row3 - (Vec3.dot B.row2 B.row3) ^ 2 ∧
+    0 < Vec3.dot B.row1 B.row1 * Vec3.dot B.row3 B.row3 - (Vec3.dot B.row1 B.row3) ^ 2 ∧
+    0 < Vec3.dot B.row1 B.row1 * Vec3.dot B.row2 B.row2 - (Vec3.dot B.row1 B.row2) ^ 2 := by
+  have h1 := cauchy_schwarz B.row1 (cross B.row2 B.row3)
+  have h2 := cauchy_schwarz B.row2 (cross B.row3 B.row1)
+  have h3 := cauchy_schwarz B.row3 (cross B.row1 B.row2)
+  rw [← det_triple1, lagrange] at h1
+  rw [← det_triple2, lagrange] at h2
+  rw [← det_triple3, lagrange] at h3
+  have l1 := dot_self_nonneg (cross B.row2 B.row3)
+  have l2 := dot_self_nonneg (cross B.row3 B.row1)
+  have l3 := dot_self_nonneg (cross B.row1 B.row2)
+  rw [lagrange] at l1 l2 l3
+  obtain ⟨p1, q1⟩ := both_pos hB (dot_self_nonneg _) l1 h1
+  obtain ⟨p2, q2⟩ := both_pos hB (dot_self_nonneg _) l2 h2
+  obtain ⟨p3, q3⟩ := both_pos hB (dot_self_nonneg _) l3 h3
+  refine ⟨p1, p2, p3, q1, ?_, q3⟩
+  rw [dot_comm B.row1 B.row3, mul_comm]; exact q2
+
+theorem gram_det (B : Mat3 ℝ) : (B.mul B.transpose).det = B.det ^ 2 := by
+  rw [Mat3.det_mul, Mat3.det_transpose, pow_two]
+
+theorem metricsOf_det (a b c ca cb cg : ℝ) :
+    (metricsOf a b c ca cb cg).det = (a * b * c) ^ 2 * (1 + 2 * ca * cb * cg - ca * ca - cb * cb - cg * cg) := by
+  simp only [metricsOf, Mat3.det]; ring
+
+theorem abs_le_one_of {x : ℝ} (h : 0 < 1 - x * x) : -1 ≤ x ∧ x ≤ 1 := by
+  constructor <;> nlinarith [sq_nonneg (x - 1), sq_nonneg (x + 1)]
+
+theorem abs_lt_one_of {x : ℝ} (h : 0 < 1 - x * x) : -1 < x ∧ x < 1 := by
+  constructor <;> nlinarith [sq_nonneg (x - 1), sq_nonneg (x + 1)]
+
+/-- lengths, cosines with `|cos| < 1` and positive `1 + 2·ca·cb·cg − …` give valid data -/
+theorem validCS_csOfCos {a b c ca cb cg : ℝ} (ha : 0 < a) (hb : 0 < b) (hc : 0 < c)
+    (h1 : 0 < 1 - ca * ca) (h2 : 0 < 1 - cb * cb) (h3 : 0 < 1 - cg * cg)
+    (hE : 0 < 1 + 2 * ca * cb * cg - ca * ca - cb * cb - cg * cg) : ValidCS (csOfCos a b c ca cb cg) := by
+  obtain ⟨a0, a1⟩ := abs_le_one_of h1
+  obtain ⟨b0, b1⟩ := abs_le_one_of h2
+  obtain ⟨g0, g1⟩ := abs_le_one_of h3
+  refine ⟨ha, hb, hc, ?_, ?_, ?_, ?_, ?_, ?_, ?_, ?_⟩
+  · simp only [csOfCos, elem_sqrt]; rw [Real.mul_self_sqrt h1.le]; ring
+  · simp only [csOfCos, elem_sqrt]; rw [Real.mul_self_sqrt h2.le]; ring
+  · simp only [csOfCos, elem_sqrt]; rw [Real.mul_self_sqrt h3.le]; ring
+  · exact Real.sqrt_pos.mpr h1
+  · exact Real.sqrt_pos.mpr h2
+  · exact Real.sqrt_pos.mpr h3
+  · simp only [csOfCos, unitvol]; rw [cosd_acosd a0 a1, cosd_acosd b0 b1, cosd_acosd g0 g1]
+    exact Real.mul_self_sqrt hE.le
+  · simp only [csOfCos, unitvol]; rw [cosd_acosd a0 a1, cosd_acosd b0 b1, cosd_acosd g0 g1]
+    exact Real.sqrt_pos.mpr hE
+
+theorem one_sub_cos_sq_pos {n2 n3 d b c : ℝ} (hb : 0 < b) (hc : 0 < c) (hb2 : b * b = n2) (hc2 : c * c = n3)
+    (hL : 0 < n2 * n3 - d ^ 2) : 0 < 1 - d / (b * c) * (d / (b * c)) := by
+  have hbc : 0 < b * c := mul_pos hb hc
+  have : 1 - d / (b * c) * (d / (b * c)) = (n2 * n3 - d ^ 2) / ((b * c) * (b * c)) := by
+    rw [← hb2, ← hc2]; field_simp
+  rw [this]; exact div_pos hL (mul_pos hbc hbc)
+
+/-- `setLatBase` on any right-handed base: the recovered data are valid and reproduce the Gram matrix -/
+theorem csOfBase_valid {B : Mat3 ℝ} (hB : 0 < B.det) :
+    ValidCS (csOfBase B) ∧
+    B.mul B.transpose = metricsOf (csOfBase B).a (csOfBase B).b (csOfBase B).c (csOfBase B).ca (csOfBase B).cb (csOfBase B).cg := by
+  obtain ⟨n1, n2, n3, l23, l13, l12⟩ := rows_of_det_ne hB.ne'
+  rw [csOfBase_eq_csOfCos]
+  set a := Real.sqrt (Vec3.dot B.row1 B.row1) with hadef
+  set b := Real.sqrt (Vec3.dot B.row2 B.row2) with hbdef
+  set c := Real.sqrt (Vec3.dot B.row3 B.row3) with hcdef
+  have ha : 0 < a := Real.sqrt_pos.mpr n1
+  have hb : 0 < b := Real.sqrt_pos.mpr n2
+  have hc : 0 < c := Real.sqrt_pos.mpr n3
+  have ha2 : a * a = Vec3.dot B.row1 B.row1 := Real.mul_self_sqrt n1.le
+  have hb2 : b * b = Vec3.dot B.row2 B.row2 := Real.mul_self_sqrt n2.le
+  have hc2 : c * c = Vec3.dot B.row3 B.row3 := Real.mul_self_sqrt n3.le
+  have hG : B.mul B.transpose = metricsOf a b c (Vec3.dot B.row2 B.row3 / (b * c)) (Vec3.dot B.row1 B.row3 / (a * c))
+      (Vec3.dot B.row1 B.row2 / (a * b)) := by
+    obtain ⟨g11, g22, g33, g23, g13, g12⟩ := gram_entries B
+    have g32 : (B.mul B.transpose).a32 = Vec3.dot B.row2 B.row3 := by
+      simp only [Mat3.mul, Mat3.transpose, Vec3.dot, Mat3.row2, Mat3.row3]; ring
+    have g31 : (B.mul B.transpose).a31 = Vec3.dot B.row1 B.row3 := by
+      simp only [Mat3.mul, Mat3.transpose, Vec3.dot, Mat3.row1, Mat3.row3]; ring
+    have g21 : (B.mul B.transpose).a21 = Vec3.dot B.row1 B.row2 := by
+      simp only [Mat3.mul, Mat3.transpose, Vec3.dot, Mat3.row1, Mat3.row2]; ring
+    apply Mat3.ext'
+    · rw [g11]; simp only [metricsOf]; exact ha2.symm
+    · rw [g12]; simp only [metricsOf]; field_simp
+    · rw [g13]; simp only [metricsOf]; field_simp
+    · rw [g21]; simp only [metricsOf]; field_simp
+    · rw [g22]; simp only [metricsOf]; exact hb2.symm
+    · rw [g23]; simp only [metricsOf]; field_simp
+    · rw [g31]; simp only [metricsOf]; field_simp
+    · rw [g32]; simp only [metricsOf]; field_simp
+    · rw [g33]; simp only [metricsOf]; exact hc2.symm
+  refine ⟨?_, by simpa only [csOfCos] using hG⟩
+  apply validCS_csOfCos ha hb hc
+  · exact one_sub_cos_sq_pos hb hc hb2 hc2 l23
+  · exact one_sub_cos_sq_pos ha hc ha2 hc2 l13
+  · exact one_sub_cos_sq_pos ha hb ha2 hb2 l12
+  · have hd := gram_det B
+    rw [hG, metricsOf_det] at hd
+    have habc : 0 < (a * b * c) ^ 2 := by positivity
+    have : 0 < (a * b * c) ^ 2 * (1 + 2 * (Vec3.dot B.row2 B.row3 / (b * c)) * (Vec3.dot B.row1 B.row3 / (a * c)) *
+        (Vec3.dot B.row1 B.row2 / (a * b)) - Vec3.dot B.row2 B.row3 / (b * c) * (Vec3.dot B.row2 B.row3 / (b * c)) -
+        Vec3.dot B.row1 B.row3 / (a * c) * (Vec3.dot B.row1 B.row3 / (a * c)) -
+        Vec3.dot B.row1 B.row2 / (a * b) * (Vec3.dot B.row1 B.row2 / (a * b))) := by
+      rw [hd]; positivity
+    exact (pos_iff_pos_of_mul_pos this).mp habc
+
+
+theorem det_one' : (Mat3.one : Mat3 ℝ).det = 1 := by simp [Mat3.det, Mat3.one]
+
+theorem det_inv {S : Mat3 ℝ} (h : S.det ≠ 0) : S.inv.det * S.det = 1 := by
+  rw [← Mat3.det_mul, Mat3.inv_mul h, det_one']
+
+/-- `R = S⁻¹·B` is a proper rotation when `S·Sᵀ = B·Bᵀ` and both determinants are positive -/
+theorem isRot_of_gram {S B : Mat3 ℝ} (hS : 0 < S.det) (hB : 0 < B.det)
+    (hG : S.mul S.transpose = B.mul B.transpose) : IsRot (S.inv.mul B) := by
+  constructor
+  · rw [Mat3.transpose_mul, Mat3.mul_assoc, ← Mat3.mul_assoc B, ← hG, Mat3.mul_assoc S, ← Mat3.mul_assoc S.inv,
+      Mat3.inv_mul hS.ne', Mat3.one_mul, ← Mat3.transpose_mul, Mat3.inv_mul hS.ne', transpose_one]
+  · have h2 : S.det ^ 2 = B.det ^ 2 := by rw [← gram_det, ← gram_det, hG]
+    have h3 : S.det = B.det := by
+      have := sq_eq_sq₀ hS.le hB.le |>.mp h2
+      exact this
+    rw [Mat3.det_mul, ← h3]; exact det_inv hS.ne'
+
+/-- every right-handed base is `setLatPar` of valid data with a proper rotation -/
+theorem ofBase_sound {B : Mat3 ℝ} (hB : 0 < B.det) :
+    Valid (csOfBase B) ((S0 (csOfBase B)).inv.mul B) ∧
+    ofBase B = ofCS (csOfBase B) ((S0 (csOfBase B)).inv.mul B) := by
+  obtain ⟨hv, hG⟩ := csOfBase_valid hB
+  refine ⟨⟨hv, ?_⟩, ofBase_eq_ofCS rfl hv⟩
+  apply isRot_of_gram _ hB
+  · rw [S0_gram hv, hG]
+  · rw [S0_det _ hv]; exact mul_pos (mul_pos (mul_pos hv.a_pos hv.b_pos) hv.c_pos) hv.V_pos
+
+theorem ofBase_fields (B : Mat3 ℝ) :
+    (ofBase B).base = B ∧ (ofBase B).recbase = B.inv ∧
+    (ofBase B).baserot = (ofBase B).stdbase.inv.mul B := ⟨rfl, rfl, rfl⟩
+
+/-- `stdbase · baserot = base` after `setLatBase` -/
+theorem ofBase_std_rot {B : Mat3 ℝ} (hB : 0 < B.det) : (ofBase B).stdbase.mul (ofBase B).baserot = B := by
+  obtain ⟨hv, h⟩ := ofBase_sound hB
+  rw [h, ofCS_stdbase hv.cs, ofCS_baserot, ← Mat3.mul_assoc, Mat3.mul_inv (S0_det_ne hv.cs), Mat3.one_mul]
+
+/-! #### the two views and coherence -/
+
+/-- recomputing cosines, sines and the volume from the recovered angles gives the same data -/
+theorem csOfPar_csOfCos {a b c ca cb cg : ℝ} (h1 : 0 < 1 - ca * ca) (h2 : 0 < 1 - cb * cb) (h3 : 0 < 1 - cg * cg) :
+    csOfPar a b c (Elem.acosd ca) (Elem.acosd cb) (Elem.acosd cg) = csOfCos a b c ca cb cg := by
+  obtain ⟨a0, a1⟩ := abs_le_one_of h1
+  obtain ⟨b0, b1⟩ := abs_le_one_of h2
+  obtain ⟨g0, g1⟩ := abs_le_one_of h3
+  apply CellCS.ext <;> simp only [csOfPar, csOfCos]
+  · exact cosd_acosd a0 a1
+  · exact cosd_acosd b0 b1
+  · exact cosd_acosd g0 g1
+  · exact sind_acosd ca
+  · exact sind_acosd cb
+  · exact sind_acosd cg
+
+/-- for angles in (0°, 180°) the data recovered from the cosines are the data computed from the angles -/
+theorem csOfCos_cosd {a b c al be ga : ℝ} (h : ValidPar a b c al be ga) :
+    csOfCos a b c (Elem.cosd al) (Elem.cosd be) (Elem.cosd ga) = csOfPar a b c al be ga := by
+  have hv := validCS_csOfPar h
+  have e1 := acosd_cosd h.al_pos h.al_lt
+  have e2 := acosd_cosd h.be_pos h.be_lt
+  have e3 := acosd_cosd h.ga_pos h.ga_lt
+  have s1 : Real.sqrt (1 - (Elem.cosd al : ℝ) * Elem.cosd al) = Elem.sind al := by
+    have := hv.ha; simp only [csOfPar] at this
+    rw [show 1 - (Elem.cosd al : ℝ) * Elem.cosd al = Elem.sind al * Elem.sind al by linear_combination -this]
+    exact Real.sqrt_mul_self hv.sa_pos.le
+  have s2 : Real.sqrt (1 - (Elem.cosd be : ℝ) * Elem.cosd be) = Elem.sind be := by
+    have := hv.hb; simp only [csOfPar] at this
+    rw [show 1 - (Elem.cosd be : ℝ) * Elem.cosd be = Elem.sind be * Elem.sind be by linear_combination -this]
+    exact Real.sqrt_mul_self hv.sb_pos.le
+  have s3 : Real.sqrt (1 - (Elem.cosd ga : ℝ) * Elem.cosd ga) = Elem.sind ga := by
+    have := hv.hg; simp only [csOfPar] at this
+    rw [show 1 - (Elem.cosd ga : ℝ) * Elem.cosd ga = Elem.sind ga * Elem.sind ga by linear_combination -this]
+    exact Real.sqrt_mul_self hv.sg_pos.le
+  apply CellCS.ext <;> simp only [csOfPar, csOfCos, elem_sqrt]
+  · exact e1
+  · exact e2
+  · exact e3
+  · exact s1
+  · exact s2
+  · exact s3
+  · rw [e1, e2, e3]
+
+/-- **two views, part 1**: the lattice built from the base vectors of `Lattice(a,b,c,α,β,γ,baserot=Q)` is that lattice -/
+theorem ofBase_ofPar_base {a b c al be ga : ℝ} {Q : Mat3 ℝ} (h : ValidPar a b c al be ga) (hQ : IsRot Q) :
+    ofBase (ofPar a b c al be ga Q).base = ofPar a b c al be ga Q := by
+  have hv := valid_ofPar h hQ
+  rw [ofPar]
+  apply ofBase_base hv
+  have hG := (metrics_eq_gram hv).symm
+  rw [ofCS_metrics] at hG
+  rw [csOfBase_of_gram h.a_pos h.b_pos h.c_pos hG]
+  exact csOfCos_cosd h
+
+/-- **coherence of `setLatBase`** (two views, part 2): every attribute computed by `setLatBase` equals the one
+`setLatPar` computes from the recovered parameters and rotation -/
+theorem ofBase_coherent {B : Mat3 ℝ} (hB : 0 < B.det) :
+    ofBase B = ofPar (ofBase B).a (ofBase B).b (ofBase B).c (ofBase B).alpha (ofBase B).beta (ofBase B).gamma
+      (ofBase B).baserot := by
+  obtain ⟨n1, n2, n3, l23, l13, l12⟩ := rows_of_det_ne hB.ne'
+  obtain ⟨hv, h⟩ := ofBase_sound hB
+  have hv' := hv.cs
+  rw [csOfBase_eq_csOfCos] at hv'
+  have e : csOfPar (ofBase B).a (ofBase B).b (ofBase B).c (ofBase B).alpha (ofBase B).beta (ofBase B).gamma = csOfBase B := by
+    rw [csOfBase_eq_csOfCos]
+    have q1 : 0 < 1 - (csOfBase B).ca * (csOfBase B).ca := by
+      have := hv.cs.ha; have := hv.cs.sa_pos; nlinarith
+    have q2 : 0 < 1 - (csOfBase B).cb * (csOfBase B).cb := by
+      have := hv.cs.hb; have := hv.cs.sb_pos; nlinarith
+    have q3 : 0 < 1 - (csOfBase B).cg * (csOfBase B).cg := by
+      have := hv.cs.hg; have := hv.cs.sg_pos; nlinarith
+    exact csOfPar_csOfCos q1 q2 q3
+  have hr : (ofBase B).baserot = (S0 (csOfBase B)).inv.mul B := by rw [h]; rfl
+  rw [ofPar, e, hr]; exact h
+
+
+/-! #### C10: well-formed objects, operations, histories -/
+
+theorem arccos_deg_range {x : ℝ} (h : 0 < 1 - x * x) :
+    0 < (Elem.acosd x : ℝ) ∧ (Elem.acosd x : ℝ) < 180 := by
+  obtain ⟨h0, h1⟩ := abs_lt_one_of h
+  have hp := Real.pi_pos
+  have p0 : 0 < Real.arccos x := Real.arccos_pos.mpr h1
+  have p1 : Real.arccos x < π :=
+    lt_of_le_of_ne (Real.arccos_le_pi x) (fun e => absurd (Real.arccos_eq_pi.mp e) (not_le.mpr h0))
+  simp only [elem_acosd]
+  constructor
+  · positivity
+  · rw [div_lt_iff₀ hp]; nlinarith
+
+theorem ofBase_validPar {B : Mat3 ℝ} (hB : 0 < B.det) :
+    ValidPar (ofBase B).a (ofBase B).b (ofBase B).c (ofBase B).alpha (ofBase B).beta (ofBase B).gamma := by
+  obtain ⟨hv, -⟩ := ofBase_sound hB
+  have hc := hv.cs
+  have q1 : 0 < 1 - (csOfBase B).ca * (csOfBase B).ca := by
+    have := hc.ha; have := hc.sa_pos; nlinarith
+  have q2 : 0 < 1 - (csOfBase B).cb * (csOfBase B).cb := by
+    have := hc.hb; have := hc.sb_pos; nlinarith
+  have q3 : 0 < 1 - (csOfBase B).cg * (csOfBase B).cg := by
+    have := hc.hg; have := hc.sg_pos; nlinarith
+  obtain ⟨a0, a1⟩ := arccos_deg_range q1
+  obtain ⟨b0, b1⟩ := arccos_deg_range q2
+  obtain ⟨g0, g1⟩ := arccos_deg_range q3
+  refine ⟨hc.a_pos, hc.b_pos, hc.c_pos, a0, a1, b0, b1, g0, g1, ?_⟩
+  have e1 := cosd_acosd (abs_le_one_of q1).1 (abs_le_one_of q1).2
+  have e2 := cosd_acosd (abs_le_one_of q2).1 (abs_le_one_of q2).2
+  have e3 := cosd_acosd (abs_le_one_of q3).1 (abs_le_one_of q3).2
+  simp only [elem_cosd] at e1 e2 e3
+  show 0 < 1 + 2 * Real.cos ((Elem.acosd (csOfBase B).ca : ℝ) * π / 180) * Real.cos ((Elem.acosd (csOfBase B).cb : ℝ) * π / 180) *
+      Real.cos ((Elem.acosd (csOfBase B).cg : ℝ) * π / 180) -
+      Real.cos ((Elem.acosd (csOfBase B).ca : ℝ) * π / 180) * Real.cos ((Elem.acosd (csOfBase B).ca : ℝ) * π / 180) -
+      Real.cos ((Elem.acosd (csOfBase B).cb : ℝ) * π / 180) * Real.cos ((Elem.acosd (csOfBase B).cb : ℝ) * π / 180) -
+      Real.cos ((Elem.acosd (csOfBase B).cg : ℝ) * π / 180) * Real.cos ((Elem.acosd (csOfBase B).cg : ℝ) * π / 180)
+  rw [e1, e2, e3, ← hc.hV]
+  exact mul_pos hc.V_pos hc.V_pos
+
+/-- a well-formed lattice object: every cached attribute is the one `setLatPar` computes from the stored
+parameters and rotation (coherence), the parameters are a valid cell and the rotation is proper -/
+structure WF (L : Lattice ℝ) : Prop where
+  coherent : L = ofPar L.a L.b L.c L.alpha L.beta L.gamma L.baserot
+  par : ValidPar L.a L.b L.c L.alpha L.beta L.gamma
+  rot : IsRot L.baserot
+
+theorem wf_ofPar {a b c al be ga : ℝ} {Q : Mat3 ℝ} (h : ValidPar a b c al be ga) (hQ : IsRot Q) :
+    WF (ofPar a b c al be ga Q) := ⟨rfl, h, hQ⟩
+
+theorem wf_ofBase {B : Mat3 ℝ} (hB : 0 < B.det) : WF (ofBase B) := by
+  refine ⟨ofBase_coherent hB, ofBase_validPar hB, ?_⟩
+  obtain ⟨hv, h⟩ := ofBase_sound hB
+  have hr : (ofBase B).baserot = (S0 (csOfBase B)).inv.mul B := by rw [h]; rfl
+  rw [hr]; exact hv.rot
+
+theorem wf_base_det {L : Lattice ℝ} (h : WF L) : 0 < L.base.det ∧ L.recbase = L.base.inv := by
+  rw [h.coherent]
+  exact ⟨base_det_pos (valid_ofPar h.par h.rot), rfl⟩
+
+theorem wf_reciprocal {L : Lattice ℝ} (h : WF L) : WF L.reciprocal := by
+  obtain ⟨hd, hr⟩ := wf_base_det h
+  apply wf_ofBase
+  rw [Mat3.det_transpose, hr]
+  have := det_inv hd.ne'
+  exact (pos_iff_pos_of_mul_pos (by rw [this]; exact one_pos)).mpr hd
+
+theorem validPar_default : ValidPar 1 1 1 90 90 90 := by
+  have h90 : Real.cos ((90 : ℝ) * π / 180) = 0 := by
+    rw [show (90 : ℝ) * π / 180 = π / 2 by ring]; exact Real.cos_pi_div_two
+  refine ⟨one_pos, one_pos, one_pos, by norm_num, by norm_num, by norm_num, by norm_num, by norm_num, by norm_num, ?_⟩
+  rw [h90]; norm_num
+
+/-- the merged arguments of a `setLatPar` call are a valid cell with a proper rotation -/
+def ValidArgs (L : Lattice ℝ) (p : ParArgs ℝ) : Prop :=
+  ValidPar (p.a.getD L.a) (p.b.getD L.b) (p.c.getD L.c) (p.alpha.getD L.alpha) (p.beta.getD L.beta) (p.gamma.getD L.gamma) ∧
+  IsRot (p.baserot.getD L.baserot)
+
+/-- "valid" operation in the world `w`: every cell that results has positive lengths, angles in (0°,180°), positive
+volume and a proper rotation; bases are right-handed.  (A call that raises is outside the quantifier.) -/
+def ValidOp (w : List (Lattice ℝ)) : Op ℝ → Prop
+  | .newDefault => True
+  | .newPar a b c al be ga rot => ValidPar a b c al be ga ∧ IsRot (rot.getD Mat3.one)
+  | .newBase B => 0 < B.det
+  | .copy _ => True
+  | .recip _ => True
+  | .setPar i p => ∀ L, w[i]? = some L → ValidArgs L p
+  | .setProp i k v => ∀ L p, w[i]? = some L → propArgs k v = some p → ValidArgs L p
+  | .setBase _ B => 0 < B.det
+
+def ValidRun (w : List (Lattice ℝ)) : List (Op ℝ) → Prop
+  | [] => True
+  | op :: ops => ValidOp w op ∧ ∀ w', step w op = some w' → ValidRun w' ops
+
+theorem wf_setLatPar (L : Lattice ℝ) (p : ParArgs ℝ) (h : ValidArgs L p) : WF (L.setLatPar p) := by
+  rw [setLatPar_eq]; exact wf_ofPar h.1 h.2
+
+theorem wf_append {w : List (Lattice ℝ)} {X : Lattice ℝ} (hw : ∀ L ∈ w, WF L) (hX : WF X) : ∀ L ∈ w ++ [X], WF L := by
+  intro L hL
+  rcases List.mem_append.mp hL with h | h
+  · exact hw L h
+  · rw [List.mem_singleton.mp h]; exact hX
+
+theorem wf_set {w : List (Lattice ℝ)} {X : Lattice ℝ} (i : Nat) (hw : ∀ L ∈ w, WF L) (hX : WF X) : ∀ L ∈ w.set i X, WF L := by
+  intro L hL
+  rcases List.mem_or_eq_of_mem_set hL with h | h
+  · exact hw L h
+  · rw [h]; exact hX
+
+theorem step_wf {w w' : List (Lattice ℝ)} {op : Op ℝ} (hw : ∀ L ∈ w, WF L) (hop : ValidOp w op)
+    (hs : step w op = some w') : ∀ L ∈ w', WF L := by
+  cases op with
+  | newDefault =>
+    simp only [step, Option.some.injEq] at hs; subst hs
+    exact wf_append hw (wf_ofPar validPar_default isRot_one)
+  | newPar a b c al be ga rot =>
+    simp only [step, Option.some.injEq] at hs; subst hs
+    exact wf_append hw (wf_ofPar hop.1 hop.2)
+  | newBase B =>
+    simp only [step, Option.some.injEq] at hs; subst hs
+    exact wf_append hw (wf_ofBase hop)
+  | copy i =>
+    simp only [step, Option.map_eq_some_iff] at hs
+    obtain ⟨X, hX, rfl⟩ := hs
+    exact wf_append hw (hw X (List.mem_of_getElem? hX))
+  | recip i =>
+    simp only [step, Option.map_eq_some_iff] at hs
+    obtain ⟨X, hX, rfl⟩ := hs
+    exact wf_append hw (wf_reciprocal (hw X (List.mem_of_getElem? hX)))
+  | setPar i p =>
+    simp only [step, Option.map_eq_some_iff] at hs
+    obtain ⟨X, hX, rfl⟩ := hs
+    exact wf_set i hw (wf_setLatPar X p (hop X hX))
+  | setProp i k v =>
+    simp only [step, Option.bind_eq_some_iff, Option.map_eq_some_iff] at hs
+    obtain ⟨X, hX, p, hp, rfl⟩ := hs
+    exact wf_set i hw (wf_setLatPar X p (hop X p hX hp))
+  | setBase i B =>
+    simp only [step, Option.map_eq_some_iff] at hs
+    obtain ⟨X, hX, rfl⟩ := hs
+    rw [setLatBase_eq]
+    exact wf_set i hw (wf_ofBase hop)
+
+theorem run_wf : ∀ (ops : List (Op ℝ)) (w w' : List (Lattice ℝ)), (∀ L ∈ w, WF L) → ValidRun w ops →
+    run w ops = some w' → ∀ L ∈ w', WF L
+  | [], w, w', hw, _, hr => by
+    simp only [run, Option.some.injEq] at hr; subst hr; exact hw
+  | op :: ops, w, w', hw, hv, hr => by
+    simp only [run, Option.bind_eq_some_iff] at hr
+    obtain ⟨w1, h1, h2⟩ := hr
+    exact run_wf ops w1 w' (step_wf hw hv.1 h1) (hv.2 w1 h1) h2
+
+
+/-! #### reciprocal lattice -/
+
+theorem inv_transpose (A : Mat3 ℝ) : A.transpose.inv = A.inv.transpose := by
+  simp only [Mat3.inv]
+  rw [Mat3.det_transpose]
+  apply Mat3.ext' <;> simp only [Mat3.transpose, Mat3.adj] <;> ring
+
+theorem inv_inv' {A : Mat3 ℝ} (h : A.det ≠ 0) : A.inv.inv = A := by
+  have hd : A.inv.det ≠ 0 := by
+    intro e; have := det_inv h; rw [e, zero_mul] at this; exact zero_ne_one this
+  exact left_inv_eq_right_inv (Mat3.inv_mul hd) (Mat3.inv_mul h)
+
+/-- the reciprocal of the reciprocal has the original base vectors -/
+theorem recip_recip_base {L : Lattice ℝ} (h : WF L) : L.reciprocal.reciprocal.base = L.base := by
+  obtain ⟨hd, hr⟩ := wf_base_det h
+  show (L.recbase.transpose.inv).transpose = L.base
+  rw [inv_transpose, Mat3.transpose_transpose, hr, inv_inv' hd.ne']
+
+/-- the cell parameters of the reciprocal lattice are the cached reciprocal parameters -/
+theorem recip_params {L : Lattice ℝ} (h : WF L) :
+    L.reciprocal.a = L.ar ∧ L.reciprocal.b = L.br ∧ L.reciprocal.c = L.cr ∧
+    L.reciprocal.alpha = L.alphar ∧ L.reciprocal.beta = L.betar ∧ L.reciprocal.gamma = L.gammar ∧
+    L.reciprocal.ca = L.car ∧ L.reciprocal.cb = L.cbr ∧ L.reciprocal.cg = L.cgr ∧
+    L.reciprocal.sa = L.sar ∧ L.reciprocal.sb = L.sbr ∧ L.reciprocal.sg = L.sgr ∧
+    L.reciprocal.base = L.recbase.transpose := by
+  have hv := valid_ofPar h.par h.rot
+  have hc := hv.cs
+  rw [h.coherent]
+  generalize hp : csOfPar L.a L.b L.c L.alpha L.beta L.gamma = p at hv hc
+  rw [ofPar, hp]
+  have hG := recip_gram hv
+  have har : 0 < p.sa / (p.a * p.V) := div_pos hc.sa_pos (mul_pos hc.a_pos hc.V_pos)
+  have hbr : 0 < p.sb / (p.b * p.V) := div_pos hc.sb_pos (mul_pos hc.b_pos hc.V_pos)
+  have hcr : 0 < p.sg / (p.c * p.V) := div_pos hc.sg_pos (mul_pos hc.c_pos hc.V_pos)
+  have e := csOfBase_of_gram har hbr hcr hG
+  have hrec : (ofCS p L.baserot).reciprocal = assemble (csOfBase (ofCS p L.baserot).recbase.transpose)
+      (fun S => (S.inv.mul (ofCS p L.baserot).recbase.transpose, (ofCS p L.baserot).recbase.transpose)) := rfl
+  rw [hrec, e]
+  exact ⟨rfl, rfl, rfl, rfl, rfl, rfl, rfl, rfl, rfl, rfl, rfl, rfl, rfl⟩
+
+/-- the reciprocal cell lengths are the norms of the reciprocal base vectors: `rnorm (1,0,0) = ar` … -/
+theorem rnorm_axes {p : CellCS ℝ} {Q : Mat3 ℝ} (h : Valid p Q) :
+    (ofCS p Q).rnorm ⟨1, 0, 0⟩ = (ofCS p Q).ar ∧ (ofCS p Q).rnorm ⟨0, 1, 0⟩ = (ofCS p Q).br ∧
+    (ofCS p Q).rnorm ⟨0, 0, 1⟩ = (ofCS p Q).cr := by
+  have hc := h.cs
+  have hG := recip_gram h
+  obtain ⟨g11, g22, g33, -, -, -⟩ := gram_entries (ofCS p Q).recbase.transpose
+  rw [hG] at g11 g22 g33
+  simp only [recipMetric, metricsOf] at g11 g22 g33
+  have har : 0 ≤ p.sa / (p.a * p.V) := (div_pos hc.sa_pos (mul_pos hc.a_pos hc.V_pos)).le
+  have hbr : 0 ≤ p.sb / (p.b * p.V) := (div_pos hc.sb_pos (mul_pos hc.b_pos hc.V_pos)).le
+  have hcr : 0 ≤ p.sg / (p.c * p.V) := (div_pos hc.sg_pos (mul_pos hc.c_pos hc.V_pos)).le
+  refine ⟨?_, ?_, ?_⟩
+  · rw [rnorm_eq, show Mat3.vecMul ⟨1, 0, 0⟩ (ofCS p Q).recbase.transpose = (ofCS p Q).recbase.transpose.row1 by
+      simp [Mat3.vecMul, Mat3.row1], ← g11, Real.sqrt_mul_self har]; rfl
+  · rw [rnorm_eq, show Mat3.vecMul ⟨0, 1, 0⟩ (ofCS p Q).recbase.transpose = (ofCS p Q).recbase.transpose.row2 by
+      simp [Mat3.vecMul, Mat3.row2], ← g22, Real.sqrt_mul_self hbr]; rfl
+  · rw [rnorm_eq, show Mat3.vecMul ⟨0, 0, 1⟩ (ofCS p Q).recbase.transpose = (ofCS p Q).recbase.transpose.row3 by
+      simp [Mat3.vecMul, Mat3.row3], ← g33, Real.sqrt_mul_self hcr]; rfl
+
+/-! #### copy construction -/
+
+/-- `Lattice(lat)` creates a new object with exactly the attributes of `lat`; every other object is unchanged -/
+theorem copy_eq {w w' : List (Lattice ℝ)} {i : Nat} (h : step w (.copy i) = some w') :
+    w'.length = w.length + 1 ∧ w'[w.length]? = w[i]? ∧ ∀ j, j < w.length → w'[j]? = w[j]? := by
+  simp only [step, Option.map_eq_some_iff] at h
+  obtain ⟨X, hX, rfl⟩ := h
+  refine ⟨by simp, by simp [hX], ?_⟩
+  intro j hj
+  rw [List.getElem?_append_left hj]
+
+/-- an update of one object leaves every other object (in particular a copy or its original) unchanged -/
+theorem update_independent {w w' : List (Lattice ℝ)} {i : Nat} (p : ParArgs ℝ) (h : step w (.setPar i p) = some w')
+    (j : Nat) (hj : j ≠ i) : w'[j]? = w[j]? := by
+  simp only [step, Option.map_eq_some_iff] at h
+  obtain ⟨X, -, rfl⟩ := h
+  exact List.getElem?_set_ne (Ne.symm hj)
+
+theorem setBase_independent {w w' : List (Lattice ℝ)} {i : Nat} (B : Mat3 ℝ) (h : step w (.setBase i B) = some w')
+    (j : Nat) (hj : j ≠ i) : w'[j]? = w[j]? := by
+  simp only [step, Option.map_eq_some_iff] at h
+  obtain ⟨X, -, rfl⟩ := h
+  exact List.getElem?_set_ne (Ne.symm hj)
+
+/-! #### isotropic displacement tensor -/
+
+/-- a multiple of `isotropicunit` has zero deviation in `isanisotropic` (the forced unit diagonal makes the trace 3) -/
+theorem udev_isotropic (L : Lattice ℝ) (hd : L.isotropicunit.a11 = 1 ∧ L.isotropicunit.a22 = 1 ∧ L.isotropicunit.a33 = 1)
+    (s : ℝ) : L.udev (Mat3.smul s L.isotropicunit) = Mat3.zero := by
+  obtain ⟨h1, h2, h3⟩ := hd
+  apply Mat3.ext' <;> simp only [udev, Mat3.sub, Mat3.smul, Mat3.trace, Mat3.zero, h1, h2, h3] <;> ring
+
+theorem isounit_diag (p : CellCS ℝ) (o : Mat3 ℝ → Mat3 ℝ × Mat3 ℝ) :
+    (assemble p o).isotropicunit.a11 = 1 ∧ (assemble p o).isotropicunit.a22 = 1 ∧ (assemble p o).isotropicunit.a33 = 1 :=
+  ⟨rfl, rfl, rfl⟩
+
 
 end real
 end Lattice
